@@ -93,23 +93,26 @@ class Ctx:
         return outp
 
     # ---------------------------------------------------------------- replay
-    def replay(self, files, pkgdir, pkgpath, entry, inputs, timeout=180, params=None, tagname='replay'):
+    def replay(self, files, pkgdir, pkgpath, entry, inputs, timeout=180, params=None, tagname='replay', testdir=None):
         """run harness `entry` natively with the given inputs; returns the parsed VERIF-RESULT dict (or None)"""
         self.replays_run += 1
         n = self.replays_run
         alias = 'hpkg'
+        # a virtual (overlay-only) package cannot be tested itself: the test goes into an existing directory
+        tdir = testdir or pkgdir
+        tpkg = self.pkgname(files, tdir) if testdir is None else self.real_pkgname(tdir)
         test = ('//go:build verif\n\npackage %s_test\n\nimport (\n\t"testing"\n\n\t"%s/internal/verifrt"\n\t%s "%s"\n)\n\n'
                 'func TestVerifReplay(t *testing.T) {\n\tverifrt.RunReplay(map[string]func(){"%s": %s.%s})\n}\n'
-                % (self.pkgname(files, pkgdir), MOD, alias, pkgpath, entry, alias, entry))
+                % (tpkg, MOD, alias, pkgpath, entry, alias, entry))
         tf = os.path.join(self.out, 'replay_test_%d.go' % n)
         open(tf, 'w').write(test)
         f2 = dict(files)
-        f2[os.path.join(pkgdir, 'zz_verif_replay_test.go')] = tf
+        f2[os.path.join(tdir, 'zz_verif_replay_test.go')] = tf
         ov = self.overlay(f2, native=True, name='%s%d' % (tagname, n))
         rfile = os.path.join(self.out, 'replay_%d.json' % n)
         json.dump({'entry': entry, 'inputs': inputs, 'params': params or {}}, open(rfile, 'w'))
         cmd = ['go', 'test', '-modfile=' + self.modfile, '-tags', 'verif', '-vet=off', '-count=1', '-overlay', ov,
-               '-run', '^TestVerifReplay$', '-v', './' + pkgdir]
+               '-run', '^TestVerifReplay$', '-v', './' + tdir]
         env = dict(GOENV, VERIF_REPLAY=rfile)
         try:
             r = subprocess.run(cmd, cwd=REPO, env=env, capture_output=True, text=True, timeout=timeout)
@@ -123,6 +126,16 @@ class Ctx:
                 return res
         self.notes.append('replay produced no result: ' + (r.stdout[-1500:] + r.stderr[-1500:]))
         return None
+
+    def real_pkgname(self, d):
+        import re, glob
+        for fn in sorted(glob.glob(os.path.join(REPO, d, '*.go'))):
+            if fn.endswith('_test.go'):
+                continue
+            m = re.search(r'^package\s+(\w+)', open(fn).read(), re.M)
+            if m:
+                return m.group(1)
+        return d.rsplit('/', 1)[-1]
 
     def pkgname(self, files, pkgdir):
         """Go package name of the harness package = the `package` clause of an overlay file in that directory"""
@@ -167,7 +180,7 @@ def _model_inputs(eng, m, z3, gosmt):
             if z3.is_bool(x):
                 out[k] = z3.is_true(x)
             elif z3.is_bv_value(x):
-                out[k] = x.as_signed_long() if v.size() == 64 and k.split('#')[0] in eng.signed_inputs else x.as_long()
+                out[k] = x.as_signed_long() if k.split('#')[0] in eng.signed_inputs else x.as_long()
             else:
                 out[k] = str(x)
         else:
